@@ -299,6 +299,23 @@ def _mentions_self(node, attr):
     return any(is_self_attr(n, attr) for n in ast.walk(node))
 
 
+def r7(tree, prog, rep):
+    """"at most once each" for application messages: every numbered phase reaches the application at most once - the Mailbox hands each
+    phase on once, or (equivalently for numbered phases) the Boss delivers only the buffered entry of the next expected number; the rule
+    instances are C03.R2 (which accepts a fast path only together with the Mailbox's de-duplication)"""
+    from .C03 import r2 as c03_r2
+    sub = type(rep)(rep.pid, rep.tier, rep.seed)
+    c03_r2(tree, prog, sub)
+    for o in sub.obligations:
+        if o["rule"] == "C03.R2":
+            rep.obligations.append(dict(o, rule="C18.R7"))
+            rep.evaluations += 1
+    for v in sub.violations:
+        if v["rule"] == "C03.R2":
+            rep.violation("C18.R7", v["key"].replace("C03.R2", "C18.R7"), v["what"] + " (a message can reach the application twice / out of order)",
+                          v.get("site"), v.get("detail"), _count=False)
+
+
 def run(tree, rep, tier):
     from .. import sharedstate
     sharedstate.check(tree, rep, "C18.R0")
@@ -312,6 +329,7 @@ def run(tree, rep, tier):
     observer_handoff_atomic(tree, rep, "C18.R6")
     observers_fire_eventually(tree, rep, "C18.R6")
     eventual_turn_isolates_calls(tree, rep, "C18.R6")
+    r7(tree, prog, rep)
     r1(tree, rep, tier)
 
 
